@@ -18,6 +18,10 @@ CASINGS = (("camel", betterproto.Casing.CAMEL), ("snake", betterproto.Casing.SNA
 
 
 def oracle(u: Universe, tc: TypeCase, aval: Dict[str, Any], route: str, tally: Tally) -> List[Fail]:
+    if route.endswith("@604"):
+        # the same message type declared with PEP 604 / builtin-generic annotations (what the plugin
+        # writes under typing.310): "Color | None", "list[Sub]", "dict[str, int]"
+        u, route = u.view604(), route[:-4]
     exp = av.normalize(u.schema, tc.msg, aval)
     cls = getattr(u.bp, tc.msg.name)
     fails: List[Fail] = []
@@ -76,13 +80,17 @@ def oracle(u: Universe, tc: TypeCase, aval: Dict[str, Any], route: str, tally: T
 
 
 def routes_fn(tc, aval):
+    r = ROUTES
     if fresh_variant(tc.msg, aval):
-        return ROUTES + ("ctor_fresh",)  # empty messages in container positions as fresh instances
-    return ROUTES
+        r = r + ("ctor_fresh",)  # empty messages in container positions as fresh instances
+    if tc.tag in ("T1", "KS", "TN", "REC"):
+        r = r + ("ctor@604", "parse@604")
+    return r
 
 
 def run(ctx: Ctx) -> None:
     u = get_universe(ctx.tier)
+    u.view604()  # built before the workers fork
     t = run_universe(ctx, u, oracle, routes_fn)
     ctx.coverage.update(
         states=t.n.get("cases", 0),
@@ -103,3 +111,6 @@ def run(ctx: Ctx) -> None:
 
 def replay(case: dict):
     return replay_case(oracle, case, get_universe)
+
+
+# (replay builds the PEP 604 view lazily through oracle -> u.view604())
